@@ -485,8 +485,19 @@ type rawLit struct {
 	pos        token.Pos
 }
 
+// rawValueLiterals lists, for fn, the asn1.RawValue composite literals with constant Class/Tag/IsCompound: those written
+// in fn, and those a helper called from fn builds from the constants fn hands it (wrapRaw(class, tag, content)). A
+// literal whose class or tag is a parameter of fn itself is not listed for fn: it is listed for each caller.
 func rawValueLiterals(fn *ssa.Function) []rawLit {
-	byAlloc := map[ssa.Value]*rawLit{}
+	return rawValueLiteralsBound(fn, nil, 0)
+}
+
+func rawValueLiteralsBound(fn *ssa.Function, args []ssa.Value, depth int) []rawLit {
+	type acc struct {
+		lit        rawLit
+		parametric bool
+	}
+	byAlloc := map[ssa.Value]*acc{}
 	var order []ssa.Value
 	for _, b := range fn.Blocks {
 		for _, ins := range b.Instrs {
@@ -500,27 +511,64 @@ func rawValueLiterals(fn *ssa.Function) []rawLit {
 			}
 			l := byAlloc[fa.X]
 			if l == nil {
-				l = &rawLit{pos: st.Pos()}
+				l = &acc{lit: rawLit{pos: st.Pos()}}
 				byAlloc[fa.X] = l
 				order = append(order, fa.X)
 			}
-			k, isK := st.Val.(*ssa.Const)
-			if !isK {
+			name := fieldOfAddr(fa).Name()
+			val := st.Val
+			if prm, isP := val.(*ssa.Parameter); isP && (name == "Class" || name == "Tag" || name == "IsCompound") {
+				bound := false
+				for i, fp := range fn.Params {
+					if fp == prm && i < len(args) {
+						val, bound = args[i], true
+					}
+				}
+				if !bound {
+					l.parametric = true
+					continue
+				}
+			}
+			k, isK := val.(*ssa.Const)
+			if !isK || k.Value == nil {
+				if name == "Class" || name == "Tag" || name == "IsCompound" {
+					l.parametric = true
+				}
 				continue
 			}
-			switch fieldOfAddr(fa).Name() {
+			switch name {
 			case "Class":
-				l.class = k.Int64()
+				l.lit.class = k.Int64()
 			case "Tag":
-				l.tag = k.Int64()
+				l.lit.tag = k.Int64()
 			case "IsCompound":
-				l.compound = constant.BoolVal(k.Value)
+				l.lit.compound = constant.BoolVal(k.Value)
 			}
 		}
 	}
 	var out []rawLit
 	for _, a := range order {
-		out = append(out, *byAlloc[a])
+		if !byAlloc[a].parametric {
+			out = append(out, *&byAlloc[a].lit)
+		}
+	}
+	// literals built by a helper from what fn hands it
+	if depth < 2 {
+		for _, ci := range callsIn(fn) {
+			h := ci.Common().StaticCallee()
+			if h == nil || h.Blocks == nil || h == fn || h.Pkg != fn.Pkg || hasLoop(h) {
+				continue
+			}
+			// only helpers whose literal depends on their parameters: the others are listed under their own name
+			own := rawValueLiteralsBound(h, nil, depth+1)
+			bound := rawValueLiteralsBound(h, ci.Common().Args, depth+1)
+			if len(bound) > len(own) {
+				for _, l := range bound[len(own):] {
+					l.pos = ci.Pos()
+					out = append(out, l)
+				}
+			}
+		}
 	}
 	return out
 }
